@@ -747,9 +747,21 @@ class Interp:
                 nm = target.value.id
                 self.ev_expr(st, target.slice)
                 if nm in st.alias:
-                    self.add(st, Ev('ST', line, st.alias[nm], vtags, 'setitem',
+                    f = st.alias[nm]
+                    empty = vnode is not None and is_empty_literal(vnode)
+                    if empty:
+                        # sequential swap through the alias:  L = c[k] ; c[k] = []   (c is the container of self.f)
+                        holders = [h for h, tg in st.env.items() if h != nm and not h.startswith('self.') and ('field:' + f) in tg
+                                   and not any(t.startswith('take:' + f + '@') for t in tg)]
+                        if holders:
+                            self.add(st, Ev('TK', line, f, None, 'swap', {'node': target, 'sub': True, 'sequential': True,
+                                                                          'alias': nm}))
+                            for h in holders:
+                                st.env[h] = st.env[h] | frozenset({'take:%s@%d' % (f, line)})
+                                st.alias.pop(h, None)
+                    self.add(st, Ev('ST', line, f, vtags, 'setitem',
                                     {'node': target, 'alias': nm, 'key': src(target.slice), 'value': vnode,
-                                     'empty': False, 'vshape': vshape, 'sub': True}))
+                                     'empty': empty, 'vshape': vshape, 'sub': True}))
                 self.forget(st, nm)
                 st.env[nm] = st.env.get(nm, frozenset()) | vtags
             elif isinstance(target, ast.Attribute):
